@@ -58,6 +58,15 @@ def _variants(rng, base, tier):
     return out
 
 
+F16_BASE = {"comps": [{"kind": "T", "start": 0, "steps": [sc.DAY], "initpull": False, "nout": 1, "inputs": []},
+                      {"kind": "P", "nout": 1, "inputs": [{"src": [0, 0], "chain": []}]},
+                      {"kind": "T", "start": 0, "steps": [sc.DAY], "initpull": False, "nout": 0,
+                       "inputs": [{"src": [1, 0], "chain": []}]},
+                      {"kind": "T", "start": 0, "steps": [2 * sc.DAY], "initpull": False, "nout": 0,
+                       "inputs": [{"src": [1, 0], "chain": []}]}],
+            "end": 8 * sc.DAY}
+
+
 def generate(rng, tier):
     n = 45 if tier == "quick" else 700
     cases = []
@@ -99,6 +108,12 @@ def generate(rng, tier):
             # first among the least advanced ones: a degenerate call outside the property's reading (see DESIGN C05)
             base = dict(base, end=t0 + 1)
         cases.append({"base": base, "variants": _variants(rng, base, tier)})
+    # F16 (known finding): a pull-based component read by a daily and a two-daily consumer - whether the producer's
+    # history still holds what the slower reader asks for depends on the order in which equally advanced components
+    # are considered, i.e. on the listing order
+    cases.append({"base": F16_BASE, "variants": [{"order": [0, 1, 2, 3], "link_order": [0, 1, 2]},
+                                                 {"order": [0, 1, 3, 2], "link_order": [0, 1, 2]},
+                                                 {"order": [3, 2, 1, 0], "link_order": [2, 1, 0]}]})
     # finam's own producers with internal state (noise generators, callback generators): monitor only
     for _ in range(6 if tier == "quick" else 60):
         cases.append(_gen_own(rng))
@@ -274,4 +289,12 @@ def shrink_candidates(case):
         yield {"base": b, "variants": vs}
 
 
-classifiers = {}
+def _f16(case, obs, failure):
+    if "base" not in case or not isinstance(obs, dict):
+        return False
+    return any(isinstance(o, dict) and "events" in o
+               and sc.nonmonotone_pull_component_requests(_variant_case(case, v), o)
+               for v, o in zip(case["variants"], obs.get("variants", [])))
+
+
+classifiers = {"shared_pull_component_nonmonotone_requests": _f16}
